@@ -291,6 +291,19 @@ func (fv *FuncVC) declSliceHeap(elem Sort) string {
 	fv.heapDecl(n, arraySort(SRef, arraySort(SInt, elem)))
 	return n
 }
+
+// declSliceHeapT: the heap holding the elements of slices of element type et. Slices of reference-like
+// elements are kept apart by element TYPE (a []*Union and a []*types.Named never share a backing array),
+// which gives much finer frames than one heap for all pointers.
+func (fv *FuncVC) declSliceHeapT(et types.Type) string {
+	es := fv.th.sortOf(et)
+	if es != SRef || et == nil {
+		return fv.declSliceHeap(es)
+	}
+	n := "H$Ref$" + sanitize(types.TypeString(types.Unalias(et), nil))
+	fv.heapDecl(n, arraySort(SRef, arraySort(SInt, es)))
+	return n
+}
 func (fv *FuncVC) declPtrHeap(elem Sort) string {
 	n := ptrHeap(elem)
 	fv.heapDecl(n, arraySort(SRef, elem))
@@ -587,7 +600,7 @@ func (st *State) withGuard(c string) *State {
 }
 
 func isAnalysisNodeHeap(h string) bool {
-	return strings.HasPrefix(h, "F$"+sanitize(repoModule)+".analysis.") || strings.HasPrefix(h, "H$S$"+sanitize(repoModule)+".analysis.")
+	return strings.HasPrefix(h, "F$"+sanitize(repoModule)+".analysis.") || strings.HasPrefix(h, "H$S$"+sanitize(repoModule)+".analysis.") || strings.HasPrefix(h, "H$Ref$ptr_"+sanitize(repoModule)+".analysis.") || strings.HasPrefix(h, "H$Ref$"+sanitize(repoModule)+".analysis.")
 }
 
 func (fv *FuncVC) preservesAnalysisNodes() bool {
